@@ -13,11 +13,17 @@ def escape_quotes_and_backslashes(s):
     return s.replace(u'\\', u'\\\\').replace(u"'", u"\\'")
 
 
+_PLAIN_PATH_STEP = re.compile(r"[a-zA-Z_][a-zA-Z0-9_]*\Z")
+
+
 def quote_if_needed(x):
     if isinstance(x, str):
-        if x.find("-") != -1:
-            if not x.startswith("'"):
-                return "'" + x + "'"
+        # a name which already carries its quotes (as the first path step of a
+        # parsed pattern does) is left alone; any other name which is not a
+        # plain identifier of the pattern grammar must be written as a string
+        already_quoted = len(x) >= 2 and x.startswith("'") and x.endswith("'")
+        if not already_quoted and not _PLAIN_PATH_STEP.match(x):
+            return "'" + escape_quotes_and_backslashes(x) + "'"
     return x
 
 
@@ -254,7 +260,12 @@ class _ObjectPathComponent(object):
     def create_ObjectPathComponent(component_name):
         # first case is to handle if component_name was quoted
         if isinstance(component_name, StringConstant):
-            return BasicObjectPathComponent(component_name.value, False)
+            name = component_name.value
+            if not component_name.needs_to_be_quoted:
+                # text of a parsed string literal: resolve its escapes, so
+                # that the name prints the same way as one given by a caller
+                name = re.sub(r"\\(.)", r"\1", name, flags=re.S)
+            return BasicObjectPathComponent(name, False)
         elif component_name.endswith("_ref"):
             return ReferenceObjectPathComponent(component_name)
         elif component_name.find("[") != -1:
